@@ -1205,7 +1205,10 @@ def run_bounded(ctx: Ctx) -> Report:
     counts: Dict[str, int] = {}
     timing = {}
     # one pool for all explorations (forking a torch process is expensive); torch threads are set once, before the fork
-    pool = multiprocessing.get_context("fork").Pool(ctx.jobs) if ctx.jobs > 1 else None
+    # gc.freeze(): otherwise every worker's full collections touch the gc headers of the whole inherited heap (copy-on-write storms)
+    import gc
+    gc.collect(); gc.freeze()
+    pool = multiprocessing.get_context("fork").Pool(min(ctx.jobs, 8)) if ctx.jobs > 1 else None
     try:
         return _run_bounded(ctx, rep, counts, timing, pool)
     finally:
@@ -1217,7 +1220,7 @@ def _run_bounded(ctx, rep, counts, timing, pool) -> Report:
     with warnings.catch_warnings():
         warnings.simplefilter("ignore")
         # ---- Graph ------------------------------------------------------------------
-        plans = [("wide", 2), ("deep", 3), ("core", 4)] if not ctx.thorough else [("wide", 2), ("deep", 4), ("core", 5)]
+        plans = [("wide", 2), ("deep", 4), ("core", 5)] if not ctx.thorough else [("wide", 2), ("deep", 5), ("core", 6)]
         for uname, depth in plans:
             t0 = time.time()
             U = universe(uname)
